@@ -21,6 +21,9 @@ func hashMPIsBN(h hash.Hash, magic byte, mpis ...*big.Int) *big.Int {
 
 func bytesToUint16(d []byte) (uint16, error) {
 	res, e := strconv.Atoi(string(d))
+	if e == nil && (res < 0 || res > 0xffff) {
+		return 0, strconv.ErrRange
+	}
 	return uint16(res), e
 }
 
